@@ -774,3 +774,147 @@ def check_C15(tier, seed):
 
 
 CHECKS.update({"C10": check_C10, "C15": check_C15, "C16": check_C16, "C17": check_C17})
+
+
+# ---------------------------------------------------------------------- C14
+def check_C14(tier, seed):
+    run = Run("C14", tier, seed)
+    quick = tier == "quick"
+    run.rule = ("histories: every sequence (to the depth bound) of concrete construction (Base / Mid(inherits the decorator) / "
+                "Leaf(undecorated, hand-written __init__); positional, keyword, default arguments), symbolic construction, rule "
+                "inference of 0-2 instances, registry clearing and no-domain queries at every level of the hierarchy, ending "
+                "in a query; exported by TLC and replayed, plus random walks; TLC computes the expected registry contents; "
+                "non-trivial = final query returns a proper, non-empty subset of everything constructed")
+    run.assumptions = ["a no-domain variable is declared immediately before it is evaluated",
+                       "objects are identified by the order of their concrete construction (harness log)"]
+    run.mc("Registry", "histories", constants=dict(MaxLen=4 if quick else 5),
+           invariants=("IndicesUnique", "SubtypeMonotone"), properties=("SymbolicIsInert",), constraint="Bound", view="View")
+    behs = run.export("Registry", "export", "BEH", constants=dict(MaxLen=3 if quick else 4), invariants=("Export",),
+                      constraint="Bound", count=False)
+    behs += run.export("Registry", "walks", "BEH", constants=dict(MaxLen=9 if quick else 14), invariants=("Export",),
+                       constraint="Bound", simulate=600 if quick else 20000, depth=10 if quick else 15, count=False)
+    cases = [{"id": k + 1, "family": "registry", "evs": b} for k, b in enumerate(behs)]
+    traces = run.replay(cases)
+    rej = run.validate("TraceRegistry", traces)
+    by_id = {c["id"]: c for c in cases}
+    for t in traces:
+        if t["id"] in rej:
+            run.violation(by_id[t["id"]], t, rej[t["id"]], family="registry")
+            continue
+        last = t["evs"][-1]
+        total = sum(1 for e in t["evs"] if e["op"] == "construct") + sum(len(e["got"]) for e in t["evs"] if e["op"] == "infer")
+        if last["op"] == "query" and 0 < len(last["res"]) < total:
+            run.nontrivial.add(digest([[e["op"], e["cls"], e["style"], e["n"], e["T"]] for e in t["evs"]]))
+    run.samples = [{"history": [[e["op"], e["cls"], e["style"], e["n"], e["T"]] for e in t["evs"]],
+                    "observed": [e.get("res") if e["op"] == "query" else e.get("got") if e["op"] == "infer" else None
+                                 for e in t["evs"]]} for t in traces[-2:]]
+    return run.finish()
+
+
+CHECKS["C14"] = check_C14
+
+
+# ---------------------------------------------------------------------- C13
+def mk_term_query(p, doms, **kw):
+    q = {"vars": [dict(v, dom=doms[i]) for i, v in enumerate(p["vars"])], "flats": [], "bound": [], "desc": p["desc"],
+         "quant": "an", "sel": p["sel"], "cond": p["cond"], "varkeys": list(range(1, len(p["vars"]) + 1))}
+    q.update(kw)
+    return q
+
+
+def check_C13(tier, seed):
+    run = Run("C13", tier, seed)
+    quick = tier == "quick"
+    rng = random.Random(seed)
+    run.rule = ("terms: class A with every subset of the fields n, m, s, ref given (constants incl. 0 and '', a variable, a "
+                "nested term with keyword / positional fields), by keyword or with the signature prefix positional after the "
+                "domain; each built in predicate form and in explicit form (let + one equality per field), both judged against "
+                "the denotation and against each other; typed variables Base/Mid/Leaf over domains mixing Base, Mid, Leaf "
+                "(undecorated subclass) and a foreign class, declared with let, T(From(d)), a term, several declarations over "
+                "one list or sharing one From instance; non-trivial = result neither empty nor the whole type-filtered domain")
+    run.assumptions = QUERY_ASSUMPTIONS
+    qc = QueryCheck(run)
+    fprogs = run.export("GenTerm", "fields", "PROG", constants=dict(Part="fields"), invariants=("Export", "PositionalIsPrefix"))
+    tprogs = run.export("GenTerm", "types", "PROG", constants=dict(Part="types"), invariants=("Export", "PositionalIsPrefix"))
+    reps = 3 if quick else 25
+    for p in fprogs:
+        for _ in range(reps):
+            W = datasets.random_world(rng, rng.randint(3, 6))
+            doms = datasets.domains_for(rng, W, len(p["vars"]), shared=rng.random() < 0.3, maxdom=5)
+            q1 = mk_term_query(p, doms)
+            q2 = mk_term_query(p, doms, build="explicit")
+            qc.add(W, [q1, q2], [drain_ev(1), drain_ev(2, eqto=1), drain_ev(1, eqto=1)])
+    for p in tprogs:
+        for _ in range(reps * 4):
+            n = rng.randint(3, 7)
+            W = {"objs": [{"cls": rng.choice(["Base", "Mid", "Leaf", "Other"]),
+                           "f": {"n": datasets.iv(rng.choice([0, 1, 2])), "m": datasets.iv(rng.choice([0, 1, 2]))}}
+                          for _ in range(n)]}
+            dom = rng.sample(range(1, n + 1), rng.randint(2, n))
+            q1 = mk_term_query(p, [dom])
+            variant = rng.random()
+            if variant < 0.35:
+                # several declarations sharing one From instance / one list: the later ones must see the whole list
+                others = [dict(p["vars"][0], cls=c, decl="from", fields=[], fromkey="shared") for c in ("Leaf", "Base", "Mid")]
+                rng.shuffle(others)
+                qs = []
+                for v in others[:2] + [dict(p["vars"][0], fromkey="shared")]:
+                    qs.append(mk_term_query(dict(p, vars=[v], cond=p["cond"] if v is not others[0] and v is not others[1] else {"k": "true"}), [dom]))
+                for k2, q in enumerate(qs):
+                    q["varkeys"] = [k2 + 1]
+                qc.add(W, qs, [drain_ev(1), drain_ev(2), drain_ev(3)], share_vars=True, share_froms=True)
+            else:
+                q2 = mk_term_query(p, [dom], build="explicit")
+                qc.add(W, [q1, q2], [drain_ev(1), drain_ev(2, eqto=1)])
+
+    def nontrivial(t):
+        ev = t["evs"][-1]
+        q = t["qs"][ev["qi"] - 1]
+        if ev.get("exc") == "none" and 0 < len(ev["rows"]) < len(q["vars"][0]["dom"]):
+            return digest([q["vars"], q["cond"]])
+        return None
+    qc.execute(nontrivial)
+    return run.finish()
+
+
+CHECKS["C13"] = check_C13
+
+
+# ---------------------------------------------------------------------- C11
+def check_C11(tier, seed):
+    run = Run("C11", tier, seed)
+    quick = tier == "quick"
+    run.rule = ("rules infer(entity(T(f1=e1, ...), body)) in rule mode: heads over two variables with variables, attribute "
+                "expressions (incl. falsy values), constants and None as keyword arguments (classes P, R), bodies = generated "
+                "two-variable conditions (joins, disjunctions, negation, zero solutions); every produced instance is logged "
+                "as (class, field values by identity, was it new); TLC computes one instance per satisfying assignment; "
+                "non-trivial = between 1 and all-but-one assignments satisfy the body")
+    run.assumptions = QUERY_ASSUMPTIONS + ["the head mentions every variable of the rule (C11's stated domain)"]
+    qc = QueryCheck(run)
+    rng = qc.rng
+    progs = run.export("GenQuery", "G4-bfs", "PROG", constants=dict(G="G4", NV=2, LeafLimit=10 if quick else 30, MaxLeaves=2,
+                                                                      MaxNot=1, NeedNot=False), invariants=("Export", "WellFormed"))
+    progs += run.export("GenQuery", "G4-sim", "PROG", constants=dict(G="G4", NV=2, LeafLimit=34, MaxLeaves=4 if quick else 5,
+                                                                      MaxNot=2, NeedNot=False),
+                        simulate=500 if quick else 8000, depth=12 if quick else 18)
+    cap = 2500 if quick else 40000
+    if len(progs) > cap:
+        progs = rng.sample(progs, cap)
+        run.exhaustive = False
+    for p in progs:
+        for _ in range(1 if quick else 2):
+            W, doms = _world_and_doms(rng, 2, quick)
+            q = {"vars": [{"cls": "A", "dom": doms[0]}, {"cls": "A", "dom": doms[1]}], "flats": [], "bound": [],
+                 "desc": "entity", "quant": "infer", "sel": [], "cond": p["cond"], "head": p["head"], "varkeys": [1, 2]}
+            qc.add(W, [q], [{"op": "infer", "qi": 1}])
+
+    def nontrivial(t):
+        ev = t["evs"][0]
+        if ev.get("exc") == "none" and 0 < len(ev["insts"]) < domain_size(t["qs"][0]):
+            return digest([t["qs"][0]["cond"], t["qs"][0]["head"]])
+        return None
+    qc.execute(nontrivial)
+    return run.finish()
+
+
+CHECKS["C11"] = check_C11
